@@ -7,8 +7,17 @@ from props import PROPS, PENDING_REASON
 
 ids = [json.loads(l)["id"] for l in open(os.path.join(ROOT, "properties.jsonl"))]
 checks = []
+# a property is claimed once its check has produced evidence with no violation on the unchanged tree
+def ready(pid):
+    f = os.path.join(ROOT, "evidence", pid + ".json")
+    if pid not in PROPS or not os.path.exists(f):
+        return False
+    try:
+        return json.load(open(f)).get("violations", 1) == 0
+    except Exception:
+        return False
 for pid in ids:
-    if pid not in PROPS:
+    if not ready(pid):
         continue
     c = PROPS[pid]
     checks.append({
@@ -39,7 +48,7 @@ m = {
     }],
     "checks": checks,
     "notes": "One entry point: ./check <id> --tier quick|thorough. Known findings: known_findings.json. Design: DESIGN.md.",
-    "not_applicable": [{"property_id": pid, "reason": PENDING_REASON.get(pid, "check not built yet in this session (work in progress; the technique applies, see DESIGN.md)")} for pid in ids if pid not in PROPS],
+    "not_applicable": [{"property_id": pid, "reason": PENDING_REASON.get(pid, "check not built yet in this session (work in progress; the technique applies, see DESIGN.md)")} for pid in ids if not ready(pid)],
 }
 json.dump(m, open(os.path.join(ROOT, "MANIFEST.json"), "w"), indent=1)
 print("claimed:", [c["property_id"] for c in checks])
